@@ -27,9 +27,11 @@ def n_outputs(kind):
     return len(kind[k]) if k == 'tuple' else 0
 
 
-def gen_values(rng, k, allow_mixed=False):
+def gen_values(rng, k, allow_mixed=False, numix=False):
     if allow_mixed and k >= 2 and rng.random() < 0.2:
         return common.make_values(rng, k, 'mixed')        # combos are never sorted: any rank order will do
+    if numix and k >= 2 and rng.random() < 0.2:
+        return sorted(common.make_values(rng, k, 'numix'))   # ints and floats in one case argument: the union is sorted by value
     return sorted(common.make_values(rng, k))
 
 
@@ -52,7 +54,7 @@ def gen_sweep(rng, n_case_args=0, n_cases=0, n_combo_args=(1, 5), n_vals=(1, 4),
         rows = None
         if nca:
             for a in case_args:
-                values[a] = gen_values(rng, rng.randint(1, 4))
+                values[a] = gen_values(rng, rng.randint(1, 4), numix=True)
             box = list(itertools.product(*(range(len(values[a])) for a in case_args)))
             nc = n_cases if isinstance(n_cases, int) else rng.randint(*n_cases)
             nc = max(1, min(nc, len(box)))
